@@ -5,9 +5,9 @@ R=/tmp/repo_refm
 rm -rf $R /tmp/verif_refm_work /tmp/verif_refm_evid
 git clone -q /repo $R
 export VERIF_REPO=$R VERIF_WORK=/tmp/verif_refm_work VERIF_EVID=/tmp/verif_refm_evid
-out=/verif/seeded/_benign/RESULTS.txt
+out=/verif/seeded/_benign/${OUT:-RESULTS.txt}
 : > $out.tmp
-for d in /verif/seeded/_benign/RF*/; do
+for d in /verif/seeded/_benign/${ONLY:-RF*}/; do
   id=$(basename $d)
   ( cd $R && git checkout -q -- . && git apply $d/patch.diff ) || { echo "$id APPLY-FAILED" >> $out.tmp; continue; }
   for p in ${CHECKS:-C01 C02 C03 C04 C05 C06 C07 C08 C09 C10 C11 C12 C13 C14 C15 C16 C17}; do
